@@ -320,9 +320,9 @@ func renderPanic(p *ssa.Panic) string {
 
 // paramUses returns the "value uses" of a parameter, looking through a spill to an Alloc (address-taken params).
 type use struct {
-	instr ssa.Instruction
-	val   ssa.Value // the value (param or a load of its spill slot) being used
-	viaAddr bool    // the use takes the spill slot's address (method call with pointer receiver)
+	instr   ssa.Instruction
+	val     ssa.Value // the value (param or a load of its spill slot) being used
+	viaAddr bool      // the use takes the spill slot's address (method call with pointer receiver)
 }
 
 func paramUses(p *ssa.Parameter) []use {
